@@ -63,6 +63,7 @@ SaKnobs knobs_alloc(const J& plan) {
   k.backend = (int)kn.getu("be", BE_DIRECT);
   k.realloc_mode = (int)kn.getu("rm", 0);
   k.max_request = kn.getu("maxreq", (uint64_t)1 << 20);
+  { uint64_t f = kn.getu("fill", 0); k.fill = f == 1 ? 0x00 : f == 2 ? 0xFF : 0xAA; }
 #ifdef SIM_FLAVOUR_TSAN
   if (k.backend == BE_ARENA) k.backend = BE_DIRECT;
 #endif
@@ -169,6 +170,28 @@ MV deep_mv(Rng& r, unsigned depth) {
     cur = std::move(w);
   }
   return cur;
+}
+
+// ---------------------------------------------------------------- synthetic locale
+#include <clocale>
+#include <sys/stat.h>
+static char g_locdir[256] = "";
+static void locale_cleanup() {
+  if (!g_locdir[0]) return;
+  std::string d(g_locdir); unlink((d + "/xx_XX/LC_NUMERIC").c_str()); rmdir((d + "/xx_XX").c_str()); rmdir(d.c_str());
+}
+bool comma_locale(bool on) {
+  if (!on) { setlocale(LC_NUMERIC, "C"); return true; }
+  if (!g_locdir[0]) {
+    const char* t = getenv("TMPDIR"); snprintf(g_locdir, sizeof g_locdir, "%s/simloc-%d", t && *t ? t : "/var/tmp", (int)getpid());
+    mkdir(g_locdir, 0700); std::string d = std::string(g_locdir) + "/xx_XX"; mkdir(d.c_str(), 0700);
+    // minimal glibc LC_NUMERIC category file: decimal_point ",", no grouping
+    static const unsigned char image[] = {0x14, 0x11, 0x03, 0x20, 6, 0, 0, 0, 0x20, 0, 0, 0, 0x22, 0, 0, 0, 0x23, 0, 0, 0, 0x24, 0, 0, 0, 0x28, 0, 0, 0, 0x2c, 0, 0, 0,
+                                          ',', 0, 0, 0, ',', 0, 0, 0, 0, 0, 0, 0, 'A', 'N', 'S', 'I', '_', 'X', '3', '.', '4', '-', '1', '9', '6', '8', 0};
+    FILE* f = fopen((d + "/LC_NUMERIC").c_str(), "wb"); if (f) { fwrite(image, 1, sizeof image, f); fclose(f); }
+    setenv("LOCPATH", g_locdir, 1); atexit(locale_cleanup);
+  }
+  return setlocale(LC_NUMERIC, "xx_XX") != nullptr;
 }
 
 // ---------------------------------------------------------------- crash attribution
